@@ -53,12 +53,15 @@ def build(enc, textblock_cls):
     if enc is None:
         return None
     if isinstance(enc, dict):
-        return enc['s'] if 's' in enc else enc['n']
+        if 's' in enc:
+            return enc['s']
+        return enc['n'] if 'n' in enc else enc['b']
     kind, kids = enc[0], [build(k, textblock_cls) for k in enc[1:]]
     if kind == 'L':
         return kids
     if kind == 'D':
-        return {f'k{i}': v for i, v in enumerate(kids)}
+        # keys in DESCENDING order: insertion order differs from sorted-key order
+        return {f'k{9 - i}': v for i, v in enumerate(kids)}
     if kind == 'T':
         return textblock_cls(kids)
     if kind == 'H':
@@ -67,6 +70,8 @@ def build(enc, textblock_cls):
 
 
 def _num_str(n):
+    if isinstance(n, bool):
+        return 'True' if n else 'False'
     return '0' if n == 0 and isinstance(n, int) else repr(n)
 
 
@@ -82,7 +87,7 @@ def ref_lines(enc, skip_empty=False, top=True):
             if enc['s'] == '':
                 return {()} if skip_empty else {('',)}
             return {tuple(ref_split(enc['s']))}
-        return {(_num_str(enc['n']),)}
+        return {(_num_str(enc['n'] if 'n' in enc else enc['b']),)}
     kind = enc[0]
     parts = [ref_lines(k, skip_empty if kind in 'LD' else False, top=False) for k in enc[1:]]
     combos = {tuple(itertools.chain.from_iterable(c)) for c in itertools.product(*parts)} \
